@@ -1257,3 +1257,94 @@ func ruleR205(c *Ctx) {
 		c.Missing("re-requests", "no jump back to a select that posts a NextAction request was found")
 	}
 }
+
+// ---- R206 (reports F18) ----
+
+func init() {
+	register(&Rule{ID: "R206", Title: "cohort membership follows ancestry: the cohort tag the flow tracker records for a flow that is new to it depends on what it has on record for the token that forked it, not only on the node that emitted the trace", Min: 1, Run: ruleR206})
+}
+
+func ruleR206(c *Ctx) {
+	p := c.P
+	what := "an inclusive join waits for the live tokens that descend from its fork. A token that is forked further down a branch (by a parallel gateway, by a task with two outgoing flows) descends from the fork as well; recorded under the node that forked it, it is in nobody's cohort: the token that leaves the inner block arrives at the join alone in its cohort, the join fires while other branches of the fork are still running, and fires again when they arrive"
+	n := 0
+	for _, f := range p.Funcs {
+		if f.Body == nil || f.Pkg.PkgPath != pathBpmn {
+			continue
+		}
+		r := f.Root()
+		if r.Obj == nil || recvNamed(r.Obj) == nil || recvNamed(r.Obj).Obj().Name() != "flowTracker" {
+			continue
+		}
+		in := info(f)
+		for _, d := range typeDispatches(p, f, isITrace) {
+			for _, a := range d {
+				if len(a.Types) != 1 || !isNamed(a.Types[0], pathBpmn, "FlowTrace") {
+					continue
+				}
+				// stores into a map field of the tracker
+				var stores []*ast.AssignStmt
+				var table *types.Var
+				for _, st := range a.Body {
+					inspectNoLit(st, func(m ast.Node) bool {
+						as, ok := m.(*ast.AssignStmt)
+						if !ok || len(as.Lhs) != 1 || len(as.Rhs) != 1 {
+							return true
+						}
+						ix, ok := unparen(as.Lhs[0]).(*ast.IndexExpr)
+						if !ok {
+							return true
+						}
+						if fv := fieldOf(in, ix.X); fv != nil {
+							if _, isMap := fv.Type().Underlying().(*types.Map); isMap {
+								stores = append(stores, as)
+								table = fv
+							}
+						}
+						return true
+					})
+				}
+				if len(stores) == 0 {
+					continue
+				}
+				n++
+				// does any stored value depend on a read of the table (directly or through a local)?
+				dependsOnTable := func(e ast.Expr) bool {
+					seen := map[types.Object]bool{}
+					var dep func(x ast.Expr) bool
+					dep = func(x ast.Expr) bool {
+						return mentionsDeep(x, func(z ast.Node) bool {
+							switch y := z.(type) {
+							case *ast.IndexExpr:
+								return fieldOf(in, y.X) == table
+							case *ast.Ident:
+								if o := objOf(in, y); o != nil && isLocalVar(f.Root(), o) && !seen[o] {
+									seen[o] = true
+									defs, _ := localDefs(in, f.Root().Body, o)
+									for _, dd := range defs {
+										// `v, ok := table[k]` — only the value matters
+										if dep(dd) {
+											return true
+										}
+									}
+								}
+							}
+							return false
+						})
+					}
+					return dep(e)
+				}
+				inherits := false
+				for _, as := range stores {
+					if dependsOnTable(as.Rhs[0]) {
+						inherits = true
+					}
+				}
+				c.Check(inherits, f, stores[0], "cohort tag recorded for a flow in "+f.QName(), what, ifElse(inherits, "some recorded tag derives from the tracker's own records", fmt.Sprintf("%d store(s) into %s, every one records the id of the node that emitted the trace", len(stores), table.Name())))
+			}
+		}
+	}
+	if n == 0 {
+		c.Missing("cohort records", "no FlowTrace arm of the flow tracker that stores into its table was found")
+	}
+}
